@@ -894,8 +894,23 @@ func (m *Miner) MutateC05(parent *Node, b *Block, kind string, now int64) bool {
 		b.Txs = b.Txs[1:]
 		regrind()
 	case "non-final-height", "non-final-time":
-		if len(b.Txs) < 2 {
-			return false
+		if len(b.Txs) < 2 || m.R.Chance(0.25) {
+			// the coinbase itself: a lock time at the limit with a sequence number that does not switch it off
+			cb := b.Txs[0]
+			if kind == "non-final-height" {
+				cb.Lock = height + uint32(m.R.Intn(2))
+			} else {
+				cutoff := b.H.Time
+				if p.CSVHeight != 0 && height >= p.CSVHeight {
+					cutoff = parent.MTP()
+				}
+				cb.Lock = cutoff + uint32(m.R.Intn(2))
+			}
+			cb.In[0].Seq = 0xfffffffe
+			cb.Touch()
+			recommit()
+			regrind()
+			return true
 		}
 		t := b.Txs[1+m.R.Intn(len(b.Txs)-1)]
 		if kind == "non-final-height" {
